@@ -66,6 +66,8 @@ def parse(h, tower=False, overrides=None) -> Node:
         return Node('any', hint=h)
     if h is None or h is type(None):
         return Node('class', type(None), hint=h)
+    if h is getattr(typing, 'LiteralString', object()) or h is typing.Text:
+        return Node('class', str, hint=h)
     if tower and h is float:
         return Node('union', kids=[Node('class', float), Node('class', int)], hint=h)
     if tower and h is complex:
@@ -91,6 +93,18 @@ def parse(h, tower=False, overrides=None) -> Node:
         return Node('union', kids=[P(a) for a in args], hint=h)
     if origin is Literal:
         return Node('literal', vals=list(args), hint=h)
+    if origin is tuple and any(_unpacked(a) is not None for a in args):
+        # PEP 646: a fixed-length unpacked tuple inside a fixed-length tuple is spliced in place
+        flat = []
+        for a in args:
+            inner = _unpacked(a)
+            if inner is None:
+                flat.append(a)
+            elif Ellipsis in inner:
+                raise Unsupported(f'variadic unpacked tuple in {h!r}')
+            else:
+                flat.extend(inner)
+        return Node('tuple_fixed', tuple, kids=[P(a) for a in flat], hint=h)
     if origin is tuple:
         if len(args) == 2 and args[1] is Ellipsis:
             return Node('seq', tuple, kids=[P(args[0])], hint=h)
@@ -99,6 +113,8 @@ def parse(h, tower=False, overrides=None) -> Node:
         return Node('tuple_fixed', tuple, kids=[P(a) for a in args], hint=h)
     if origin is type:
         return Node('type', type, kids=[P(args[0])], hint=h)
+    if origin is not None and isinstance(origin, type) and not args and getattr(h, '_name', None):
+        return Node('class', origin, hint=h)        # bare typing alias (typing.Hashable, typing.Sized, typing.List)
     if origin is not None and isinstance(origin, type):
         if origin in SEQ_ORIGINS:
             return Node('seq', origin, kids=[P(args[0])], hint=h)
@@ -126,6 +142,17 @@ def parse(h, tower=False, overrides=None) -> Node:
     if origin is None and hasattr(h, '__origin__') and isinstance(h.__origin__, type):
         return Node('class', h.__origin__, hint=h)
     raise Unsupported(f'hint {h!r}')
+
+
+def _unpacked(a):
+    """Arguments of the tuple unpacked by ``*tuple[...]`` / ``Unpack[Tuple[...]]``, else None."""
+    if getattr(a, '__unpacked__', False) and typing.get_origin(a) is tuple:
+        return typing.get_args(a)
+    if typing.get_origin(a) is getattr(typing, 'Unpack', object()):
+        t = typing.get_args(a)[0]
+        if typing.get_origin(t) is tuple:
+            return typing.get_args(t)
+    return None
 
 
 def _mentions(h, target):
